@@ -38,9 +38,9 @@ def main():
         os._exit(2)
 
     signal.signal(signal.SIGALRM, on_alarm)
-    signal.alarm(budget)
-
+    signal.alarm(budget + 7200)      # waiting for other runs (development: many agents share the lean project) is not check time
     common.acquire_run_lock()
+    signal.alarm(budget)
     mod = importlib.import_module(f"props.{prop.lower()}")
     ctx = Ctx(prop, args.tier, seed)
     ctx.assumptions = list(getattr(mod, "ASSUMPTIONS", []))
